@@ -67,7 +67,6 @@ def check(ctx: Ctx) -> list[RuleResult]:
         "ProtocolContext.set_state.effect_state",
         "ProtocolContext.set_state.expire_state_on_timeout",
         "ProtocolContext._check_buffer_for_cmd",
-        "ProtocolContext._send_cmd.send_fnc_wrapper",
         "ProtocolContext.pkt_received",
         "ProtocolContext.connection_made",
         "ProtocolContext.connection_lost",
@@ -75,6 +74,12 @@ def check(ctx: Ctx) -> list[RuleResult]:
         "ProtocolContext.resume_writing",
     ]
     entries = [repo.func(f"{MOD}.{n}") for n in names]
+    # the write wrapper (whatever it is called, closure or method): every function that invokes the transport write function
+    for g in funcs:
+        if g not in entries and any(isinstance(n, ast.Call) and isinstance(n.func, ast.Attribute) and n.func.attr == "_send_fnc" for n in own_nodes(g.node)):
+            entries.append(g)
+    if not any(any(isinstance(n, ast.Call) and isinstance(n.func, ast.Attribute) and n.func.attr == "_send_fnc" for n in own_nodes(g.node)) for g in entries):
+        raise AnalysisError("no function of the protocol FSM invokes the transport write function (_send_fnc)")
     # discovered: every deferred target / task created in the module must be in the list above
     for f in funcs:
         for s in ctx.cg.calls_in(f):
